@@ -695,6 +695,24 @@ pub fn run(tier: Tier, seed: u64, replay: Option<&std::path::Path>) -> i32 {
         outcome_of(text, r, &st, true, vec!["text-truncation".into()])
     });
 
+    // every ordered pair of item kinds declared under one name, in interface and world bodies and at the top level
+    let docs = collision_docs();
+    run.set_extra("name_collision_documents", json!(docs.len()));
+    run.enumerate(&docs, |text| {
+        let mut st = Stages::default();
+        let r = front_end(text, &[], &mut st);
+        outcome_of(text, r, &st, true, vec!["name-collision".into()])
+    });
+
+    // implicit imports that meet on one name or one semver track with mergeable and unmergeable types
+    let (cpk, cdocs) = conflict_docs();
+    run.set_extra("merge_conflict_documents", json!(cdocs.len()));
+    run.enumerate(&cdocs, |text| {
+        let mut st = Stages::default();
+        let r = front_end(text, &cpk, &mut st);
+        outcome_of(text, r, &st, true, vec!["implicit-import-merge".into()])
+    });
+
     let n = tier.pick(60_000, 1_000_000);
     run.explore(
         1,
@@ -727,4 +745,94 @@ pub fn run(tier: Tier, seed: u64, replay: Option<&std::path::Path>) -> i32 {
     run.floor("reached-encode-ok", 20);
     run.floor("decode-ok", 20);
     run.finish()
+}
+
+/// Packages for `check probe-fe`: every package of every fixture (first definition of a name wins).
+pub fn probe_packages() -> Vec<(String, Option<semver::Version>, Vec<u8>)> {
+    let mut out: Vec<(String, Option<semver::Version>, Vec<u8>)> = vec![];
+    for f in fixtures() {
+        for (n, v, b) in &f.packages {
+            if !out.iter().any(|(n2, v2, _)| n2 == n && v2 == v) {
+                out.push((n.clone(), v.clone(), b.clone()));
+            }
+        }
+    }
+    out
+}
+
+
+/// Two declarations under one name, every ordered pair of kinds, per scope.
+pub fn collision_docs() -> Vec<String> {
+    let iface_items: &[&str] = &["x: func();", "type x = u8;", "record x { a: u8 }", "variant x { a }", "enum x { a }", "flags x { a }", "resource x { }", "use other.{x};", "use other.{y as x};", "resource x { constructor(); x: func(); }"];
+    let world_items: &[&str] = &[
+        "import x: func();",
+        "export x: func();",
+        "import x: interface { f: func(); };",
+        "export x: interface { f: func(); };",
+        "type x = u8;",
+        "record x { a: u8 }",
+        "variant x { a }",
+        "enum x { a }",
+        "flags x { a }",
+        "resource x { }",
+        "use other.{x};",
+        "use other.{y as x};",
+        "import other;",
+        "include w0;",
+    ];
+    let top_items: &[&str] = &["type x = u8;", "record x { a: u8 }", "interface x { }", "world x { }", "import x: func();", "let x = new a:b { ... };", "type x = func();", "variant x { a }", "enum x { a }", "flags x { a }", "resource x { }"];
+    let pre = "package test:comp;\ninterface other { type x = u8; type y = u8; }\nworld w0 { import x: func(); }\n";
+    let mut out = vec![];
+    for a in iface_items {
+        for b in iface_items {
+            out.push(format!("{pre}interface i {{ {a} {b} }}\n"));
+        }
+    }
+    for a in world_items {
+        for b in world_items {
+            out.push(format!("{pre}world w {{ {a} {b} }}\n"));
+        }
+    }
+    for a in top_items {
+        for b in top_items {
+            out.push(format!("package test:comp;\n{a}\n{b}\n"));
+        }
+    }
+    out
+}
+
+
+/// Packages whose implicit imports meet on one name / one semver track, and every ordered pair and
+/// triple of instantiations of them.
+pub fn conflict_docs() -> (Vec<(String, Option<semver::Version>, Vec<u8>)>, Vec<String>) {
+    let wats: &[(&str, &str)] = &[
+        ("a", r#"(component (import "foo:dep/types@1.0.0" (instance (export "f" (func)))))"#),
+        ("b", r#"(component (import "foo:dep/types@1.1.0" (instance (export "f" (func (param "x" u32))))))"#),
+        ("c", r#"(component (import "foo:dep/types@1.0.0" (instance (export "f" (func (param "x" u32))))))"#),
+        ("d", r#"(component (import "foo:dep/types@1.1.0" (instance (export "f" (func)) (export "g" (func)))))"#),
+        ("e", r#"(component (import "foo:dep/types@2.0.0" (instance (export "f" (func (param "x" string))))))"#),
+        ("f", r#"(component (import "foo:dep/types@1.1.0" (func)))"#),
+        ("g", r#"(component (import "f" (func)) (import "foo:dep/types@1.2.0" (instance (export "t" (type (sub resource))))))"#),
+        ("h", r#"(component (import "f" (func (param "x" u32))) (import "foo:dep/types@1.0.0" (instance (type $u (record (field "a" u8))) (export "t" (type (eq $u))))))"#),
+        ("i", r#"(component (import "f" (instance)) (import "foo:dep/types@1.0.1" (component)))"#),
+    ];
+    let pkgs: Vec<(String, Option<semver::Version>, Vec<u8>)> = wats.iter().map(|(n, w)| (format!("foo:{n}"), None, wat::parse_str(w).unwrap_or_else(|e| {
+        eprintln!("BROKEN-CHECK: conflict wat {n} does not assemble: {e}");
+        std::process::exit(2)
+    }))).collect();
+    let mut docs = vec![];
+    let names: Vec<&str> = wats.iter().map(|w| w.0).collect();
+    for a in &names {
+        for b in &names {
+            if a != b {
+                docs.push(format!("package test:comp;\nlet x = new foo:{a} {{ ... }};\nlet y = new foo:{b} {{ ... }};\n"));
+                for c in &names {
+                    if c != a && c != b {
+                        docs.push(format!("package test:comp;\nlet x = new foo:{a} {{ ... }};\nlet y = new foo:{b} {{ ... }};\nlet z = new foo:{c} {{ ... }};\n"));
+                    }
+                }
+            }
+        }
+    }
+    (pkgs, docs)
 }
